@@ -37,6 +37,35 @@ class AsciiStr:
         raise Unsupported('AsciiStr == %r' % (other,))
 
 
+    def go_rconcat(self, ex, prefix):
+        return CatStr([prefix, self])
+
+    def go_concat(self, ex, suffix):
+        return CatStr([self, suffix])
+
+
+class CatStr:
+    """concatenation of concrete strings and AsciiStr parts"""
+
+    def __init__(self, parts):
+        self.parts = parts
+
+    def go_concat(self, ex, suffix):
+        return CatStr(self.parts + (suffix.parts if isinstance(suffix, CatStr) else [suffix]))
+
+    def go_rconcat(self, ex, prefix):
+        return CatStr((prefix.parts if isinstance(prefix, CatStr) else [prefix]) + self.parts)
+
+
+def intr_contains_any(ex, args, name):
+    s_, chars = args
+    if isinstance(s_, AsciiStr) and isinstance(chars, str):
+        return Or(*[c == ord(ch) for c in s_.codes for ch in chars]) if s_.codes and chars else False
+    if isinstance(s_, str) and isinstance(chars, str):
+        return any(ch in s_ for ch in chars)
+    raise Unsupported('strings.ContainsAny on %r' % (s_,))
+
+
 def letter(c):
     return z3.Or(z3.And(c >= 65, c <= 90), z3.And(c >= 97, c <= 122))
 
@@ -59,7 +88,8 @@ def intr_quote(ex, args, name):
     return Opaque('quoted', inner=args[0])
 
 
-INTR = {'unicode.IsLetter': intr_isletter, 'unicode.IsDigit': intr_isdigit, 'strconv.Quote': intr_quote}
+INTR = {'unicode.IsLetter': intr_isletter, 'unicode.IsDigit': intr_isdigit, 'strconv.Quote': intr_quote, 'strings.ContainsAny': intr_contains_any,
+        'strings.ContainsRune': lambda ex, a, n: intr_contains_any(ex, [a[0], chr(a[1])], n)}
 
 
 def printer_name_lemma(chk, prog):
@@ -90,6 +120,59 @@ def printer_name_lemma(chk, prog):
         ob.verify(ex, 'unquoted-name-is-a-nonempty-identifier', Implies(unquoted, ident), d, replay=rp, known=lambda pred, m, desc: desc['name'] == '')
         ob.verify(ex, 'identifier-is-left-unquoted', Implies(ident, unquoted), d)
     chk.run('printer:attribute-names', prog, harness, bounds={'name length': '0..%d' % MAXLEN, 'alphabet': 'ASCII 1..127 (symbolic)'}, intr=INTR)
+
+
+def printer_value_lemma(chk, prog):
+    """the value / prefix of a leaf is printed as a string literal that lexes back to the same value: either through strconv.Quote
+    (trusted) or as a raw "..." whose content needs no escape"""
+    MAXLEN = 3 if chk.thorough else 2
+    NODES = [('HasAttributeValue', dict(Name='k', Op='=')), ('HasAttributePredicate', dict(Predicate='hasPrefix', Name='k'))]
+
+    def golit(v):
+        out = '"'
+        for ch in v:
+            o = ord(ch)
+            out += '\\"' if ch == '"' else '\\\\' if ch == '\\' else ch if 32 <= o < 127 else '\\x%02x' % o
+        return out + '"'
+
+    def harness(ex, ob):
+        node, fields = NODES[ex.choose(len(NODES))]
+        n = ex.choose(MAXLEN + 1)
+        codes = [z3.Int('vc%d' % i) for i in range(n)]
+        for c in codes:
+            ex.assume(z3.And(c >= 1, c <= 127))
+        val = AsciiStr(codes)
+        w = Writer()
+        e = ex.new_ptr(ex.new_struct(F + node, Value=val, **fields))
+        err = ex.call_named('(*' + F + node + ').AsFilter', [e, Iface('writer', w)])
+        ob.verify(ex, 'prints-without-error', err is None)
+        toks = [t for t in w.out if not isinstance(t, str)]
+
+        def d(m):
+            return {'node': node, 'value': ''.join(chr(m.eval(c, model_completion=True).as_long()) for c in codes)}
+
+        def rp(m, desc):
+            lit = golit(desc['value'])
+            src = ('attributes.k = ' + lit) if desc['node'] == 'HasAttributeValue' else ('hasPrefix(attributes.k, ' + lit + ')')
+            scn = {'base_now': '2000000000000000000', 'rows': {}, 'ops': [{'op': 'filter_roundtrip', 'src': src}]}
+            out_ = replay.run_scenarios([scn])[0]
+            path = replay.save_scenario('C08', 'printer-value-%s' % desc['node'], scn, desc)
+            if 'error' in out_:
+                raise RuntimeError(out_['error'][-400:])
+            r = out_['results'][0]
+            return (r.get('parse_err') is None and (r.get('print_err') is not None or r.get('reparse_err') is not None)), path
+        if len(toks) != 1:
+            raise Unsupported('value printed through %d non-constant writes' % len(toks))
+        t = toks[0]
+        if isinstance(t, Opaque) and getattr(t, 'inner', None) is val:
+            ob.verify(ex, 'value-literal-lexes-back-to-the-value', True)
+            return
+        if isinstance(t, CatStr) and len(t.parts) == 3 and t.parts[0] == '"' and t.parts[2] == '"' and t.parts[1] is val:
+            plain = And(*[z3.And(c != 10, c != 34, c != 92) for c in codes]) if codes else True      # the lexer (text/scanner) takes any other byte raw
+            ob.verify(ex, 'value-literal-lexes-back-to-the-value', plain, d, replay=rp)
+            return
+        raise Unsupported('value printed as %r' % (t,))
+    chk.run('printer:values', prog, harness, bounds={'value length': '0..%d' % MAXLEN, 'alphabet': 'ASCII 1..127 (symbolic)', 'nodes': [x for x, _ in NODES]}, intr=INTR)
 
 
 class Writer(Opaque):
@@ -271,6 +354,7 @@ if __name__ == '__main__':
     prog = load_program()
     chk.repo_hash = prog.repo_hash
     printer_name_lemma(chk, prog)
+    printer_value_lemma(chk, prog)
     printer_tokens(chk, prog)
     run_property(chk, prog, lambda T: [c08_create] if T.kind == 'create-sub' else [])
     update_filter(chk, prog)
